@@ -102,7 +102,9 @@ impl<Tag: Default> oxidd_dump::ParseTagged<Tag> for F64 {
             | "+infinity" | "+Inf" | "+Infinity" | "+INF" | "+INFINITY" | "PlusInf" => {
                 Self(f64::INFINITY)
             }
-            _ => Self(f64::from_str(s).ok()?),
+            // `f64::from_str` accepts "-0", "-0.0", "-nan", …: go through the normalising
+            // constructor so that the `Eq`/`Hash` invariant of `F64` holds for parsed values, too
+            _ => Self::from(f64::from_str(s).ok()?),
         };
         Some((val, Tag::default()))
     }
